@@ -476,6 +476,24 @@ func (r *Resolver) findGrouping(s *Scope, q string) *Grouping {
 				}
 			}
 		}
+		// a submodule sees the module it belongs to and all of that module's submodules
+		// (RFC 7950 5.1)
+		if f.Sub && f.Owner != nil {
+			for _, g := range f.Owner.Body.Groupings {
+				if g.Name == name {
+					return g
+				}
+			}
+			subs = nil
+			subsTransitive(f.Owner, map[*Mod]bool{}, &subs)
+			for _, sm := range subs {
+				for _, g := range sm.Body.Groupings {
+					if g.Name == name {
+						return g
+					}
+				}
+			}
+		}
 		return nil
 	}
 	im := f.importByPrefix(p)
@@ -576,6 +594,21 @@ func (r *Resolver) findTypedef(s *Scope, q string) *Typedef {
 			for _, td := range sm.Body.Typedefs {
 				if td.Name == name {
 					return td
+				}
+			}
+		}
+		// a submodule sees the module it belongs to and that module's submodules
+		if f.Sub && f.Owner != nil {
+			for _, td := range f.Owner.Body.Typedefs {
+				if td.Name == name {
+					return td
+				}
+			}
+			for _, sm := range f.Owner.Includes {
+				for _, td := range sm.Body.Typedefs {
+					if td.Name == name {
+						return td
+					}
 				}
 			}
 		}
